@@ -18,7 +18,7 @@ def prod(l):
     return p
 
 
-CLASSES = ["noise", "zeros", "constant", "onesided", "offset", "subnormal", "nearmax", "mixed", "single"]
+CLASSES = ["noise", "zeros", "constant", "onesided", "negative", "offset", "subnormal", "nearmax", "mixed", "single"]
 
 
 def gen_values(rng, dtype, n, cls):
@@ -31,6 +31,8 @@ def gen_values(rng, dtype, n, cls):
         v = [c] * n
     elif cls == "onesided":
         v = [rng.uniform(0.1, 5) for _ in range(n)]
+    elif cls == "negative":
+        v = [-rng.uniform(10, 11) for _ in range(n)]
     elif cls == "offset":
         c = rng.choice([10.0, -10.0, 100.0])
         v = [c + rng.uniform(0, 1) for _ in range(n)]
